@@ -2,25 +2,28 @@
 import gen_flw as g
 
 CLAIM = ('Proved in Coq END TO END for the model: every file that any history of a Numbers (with or without cleanup), '
-         'NumbersDirect, Timestamps or TimestampsDirect writer leaves is accepted by the oracle name_documented that is applied to the '
-         'implementation (C16_*_names_documented; hypothesis: the suffix does not end in .gz), and existing_log_files returns '
-         'exactly the existing family files the selector asks for, for every history and selector (C16_numbers_listing_exact, '
-         'C16_numbersdirect_listing_exact, C16_timestamps_listing_exact, C16_timestampsdirect_listing_exact - there, without an rCURRENT file, '
-         'with_r_current selects nothing: C16_timestampsdirect_listing_no_current; a custom current infix must not be a number / '
-         'time-stamp infix, nor rCURRENT together with with_r_current - for those two combinations the proof attempt showed that '
-         'the listing has an entry twice resp. lists a rotated file). Decided per explored history by executable oracles defined '
-         "in Coq (Oracles/O_Names.v) and applied to the implementation's observations: every file in the log directory is named "
+         'NumbersDirect, Timestamps or TimestampsDirect writer leaves is accepted by the oracle name_documented that is applied '
+         'to the implementation (C16_*_names_documented; hypothesis: the suffix does not end in .gz), and existing_log_files '
+         'returns exactly the existing family files the selector asks for, for every history and selector '
+         '(C16_numbers_listing_exact, C16_numbersdirect_listing_exact, C16_timestamps_listing_exact, '
+         'C16_timestampsdirect_listing_exact - there, without an rCURRENT file, with_r_current selects nothing: '
+         'C16_timestampsdirect_listing_no_current; a custom current infix must not be a number / time-stamp infix, nor rCURRENT '
+         'together with with_r_current - for those two combinations the proof attempt showed that the listing has an entry twice '
+         'resp. lists a rotated file). Decided per explored history by executable oracles defined in Coq (Oracles/O_Names.v) and '
+         "applied to the implementation's observations: every file in the log directory is named "
          '[basename][_discriminant][_infix][.suffix][.gz] with empty/absent parts and their separators omitted and an infix of '
          'the active naming scheme (name_documented); existing_log_files returns exactly the existing family files the selector '
          'asks for (oracle_listing, compared with a directory snapshot taken just before the query); the symlink resolves to the '
          'newest family file in reader order. For FileSpec::try_from: proved in Coq that stem and extension re-assemble the file '
          'name for every name (C16_stem_ext_roundtrip), and checked against the implementation that a logger built from the '
          "derived spec writes to exactly that path. The model's naming functions are tied to the code by the correspondence "
-         'check. Partial: custom time-stamp formats, the start-time name part and directories left by earlier runs are decided by the oracles only. The symlink: proved that in every history '
-         'without failures a configured symlink leads to the file being written after every operation (absent before the first '
-         'write), for all four proved namings (C16_symlink_points_to_current, C16_*_symlink_current), and that a configuration '
-         'with symlink behaves otherwise exactly like the one without (simulation in Flw/LinkSim.v). ')
-THEOREMS = ["C16_numbers_names_documented", "C16_numbers_cleanup_names_documented", "C16_numbersdirect_names_documented", "C16_timestamps_names_documented", "C16_numbers_listing_exact", "C16_numbersdirect_listing_exact", "C16_timestamps_listing_exact", "C16_timestampsdirect_names_documented", "C16_timestampsdirect_listing_exact", "C16_timestampsdirect_listing_no_current", "C16_stem_ext_roundtrip", "C16_doc_fixed_is_fixed", "C16_name_roundtrip", "C16_symlink_points_to_current", "C16_numbers_symlink_current", "C16_numbersdirect_symlink_current", "C16_timestampsdirect_symlink_current"]
+         'check. Partial: custom time-stamp formats, the start-time name part and directories left by earlier runs are decided '
+         'by the oracles only. The symlink: proved that in every history without failures a configured symlink leads to the file '
+         'being written after every operation (absent before the first write), for all four proved namings '
+         '(C16_symlink_points_to_current, C16_*_symlink_current), and that a configuration with symlink behaves otherwise '
+         'exactly like the one without (simulation in Flw/LinkSim.v). NumbersDirect with a cleanup strategy: names documented '
+         'and listing exact, archives included (C16_numbersdirect_cleanup_*). ')
+THEOREMS = ["C16_numbers_names_documented", "C16_numbers_cleanup_names_documented", "C16_numbersdirect_names_documented", "C16_timestamps_names_documented", "C16_numbers_listing_exact", "C16_numbersdirect_listing_exact", "C16_timestamps_listing_exact", "C16_timestampsdirect_names_documented", "C16_timestampsdirect_listing_exact", "C16_timestampsdirect_listing_no_current", "C16_stem_ext_roundtrip", "C16_doc_fixed_is_fixed", "C16_name_roundtrip", "C16_symlink_points_to_current", "C16_numbers_symlink_current", "C16_numbersdirect_symlink_current", "C16_timestampsdirect_symlink_current", "C16_numbersdirect_cleanup_names_documented", "C16_numbersdirect_cleanup_names_documented_always", "C16_numbersdirect_cleanup_snapshots_documented", "C16_numbersdirect_cleanup_listing_exact", "C16_numbersdirect_cleanup_listing_no_current"]
 TRUSTED = ["modelled, not verified: std::path::Path (file_stem, extension, parent, join), symlink/read_link"]
 ASSUMPTIONS = ["with a start-time name part the listing and symlink oracles are not applied (the names oracle and the correspondence are)"]
 RULE = ("flw cases: all combinations of present/absent/empty basename and discriminant, suffix present/absent, all namings, rotation "
